@@ -156,6 +156,7 @@ func checkMat(c MatCase) error {
 			return err
 		}
 		gts = append(gts, t)
+		t.ToDistanceMatrix((gm + 1) % 3) // an earlier call with another metric must not influence the next one
 		mat, tips := t.ToDistanceMatrix(gm)
 		wn, want, err := ref.DistMatrix(m, rm)
 		if err != nil {
